@@ -311,6 +311,7 @@ func (m *c13Machine) Classify() (bool, []string) {
 	add(m.sameBlockMod > 0, "txs-in-a-due-block")
 	add(len(m.h.w.modules) >= 8, "modules>=8")
 	add(passedProposals(m.n) > 0, "params-changed-by-proposal")
+	cl = append(cl, m.h.w.shapeClasses()...)
 	return m.multiDue > 0 && m.sameBlockMod > 0, cl
 }
 
